@@ -786,6 +786,10 @@ func judgeLeaf(out *leafOutcome) (vs []viol, facts map[string]int) {
 	case len(failed) > 0:
 		facts["leaf_requests_with_failing_shard"] = 1
 		order, failedLast, known := stageOrder(out)
+		if known && !strings.Contains(order, "=Error") {
+			// the state machine never heard of a failure: not the "forgotten because not last" defect
+			known = false
+		}
 		if known {
 			if failedLast {
 				facts["leaf_failing_stage_finished_last"] = 1
